@@ -7,22 +7,29 @@ use std::panic::{catch_unwind, AssertUnwindSafe};
 
 use fn_graph::{DataAccessDyn, Edge, FnGraph, FnGraphBuilder, FnId, TypeIds};
 
-pub struct D0;
-pub struct D1;
-pub struct D2;
-pub struct D3;
-pub struct D4;
-pub struct D5;
+/// data types: `Dn<0>`, `Dn<1>`, … (96 distinct ones, so that "more than 64 types" can be exercised)
+pub struct Dn<const N: usize>;
+
+macro_rules! by_type {
+    ($i:expr, $f:ident) => {
+        by_type!(@arms $i, $f, [0 1 2 3 4 5 6 7 8 9 10 11 12 13 14 15 16 17 18 19 20 21 22 23 24 25 26 27 28 29 30 31
+            32 33 34 35 36 37 38 39 40 41 42 43 44 45 46 47 48 49 50 51 52 53 54 55 56 57 58 59 60 61 62 63
+            64 65 66 67 68 69 70 71 72 73 74 75 76 77 78 79 80 81 82 83 84 85 86 87 88 89 90 91 92 93 94 95])
+    };
+    (@arms $i:expr, $f:ident, [$($n:literal)*]) => {
+        match $i {
+            $($n => $f::<$n>(),)*
+            _ => $f::<9999>(),
+        }
+    };
+}
+
+fn tid_of<const N: usize>() -> TypeId {
+    TypeId::of::<Dn<N>>()
+}
 
 pub fn tid(i: usize) -> TypeId {
-    match i {
-        0 => TypeId::of::<D0>(),
-        1 => TypeId::of::<D1>(),
-        2 => TypeId::of::<D2>(),
-        3 => TypeId::of::<D3>(),
-        4 => TypeId::of::<D4>(),
-        _ => TypeId::of::<D5>(),
-    }
+    by_type!(i, tid_of)
 }
 
 #[derive(Clone, Debug, PartialEq)]
@@ -33,36 +40,26 @@ pub struct TestFn {
     pub w: Vec<usize>,
 }
 
-/// `(borrows, borrow_muts)` of the library's own read declaration `R<Di>`
-fn decl_r(i: usize) -> (TypeIds, TypeIds) {
-    fn of<T: 'static>(t: &T) -> (TypeIds, TypeIds) {
-        let r = fn_graph::R::new(t);
-        (DataAccessDyn::borrows(&r), DataAccessDyn::borrow_muts(&r))
-    }
-    match i {
-        0 => of(&D0),
-        1 => of(&D1),
-        2 => of(&D2),
-        3 => of(&D3),
-        4 => of(&D4),
-        _ => of(&D5),
-    }
+/// `(borrows, borrow_muts)` of the library's own read declaration `R<Dn<N>>`
+fn decl_r_of<const N: usize>() -> (TypeIds, TypeIds) {
+    let v = Dn::<N>;
+    let r = fn_graph::R::new(&v);
+    (DataAccessDyn::borrows(&r), DataAccessDyn::borrow_muts(&r))
 }
 
-/// `(borrows, borrow_muts)` of the library's own write declaration `W<Di>`
+fn decl_r(i: usize) -> (TypeIds, TypeIds) {
+    by_type!(i, decl_r_of)
+}
+
+/// `(borrows, borrow_muts)` of the library's own write declaration `W<Dn<N>>`
+fn decl_w_of<const N: usize>() -> (TypeIds, TypeIds) {
+    let mut v = Dn::<N>;
+    let w = fn_graph::W::new(&mut v);
+    (DataAccessDyn::borrows(&w), DataAccessDyn::borrow_muts(&w))
+}
+
 fn decl_w(i: usize) -> (TypeIds, TypeIds) {
-    fn of<T: 'static>(t: &mut T) -> (TypeIds, TypeIds) {
-        let w = fn_graph::W::new(t);
-        (DataAccessDyn::borrows(&w), DataAccessDyn::borrow_muts(&w))
-    }
-    match i {
-        0 => of(&mut D0),
-        1 => of(&mut D1),
-        2 => of(&mut D2),
-        3 => of(&mut D3),
-        4 => of(&mut D4),
-        _ => of(&mut D5),
-    }
+    by_type!(i, decl_w_of)
 }
 
 // The declarations of a test function are assembled from the library's own declaration helpers
@@ -305,6 +302,29 @@ pub fn build_for(id: &str, ops: &[Op], b: FnGraphBuilder<TestFn>) -> (Option<FnG
             (Some(g), s)
         }
     }
+}
+
+/// the `built …` line of another value of the same graph (a `clone_from` copy): everything is read
+/// from `g`, the hook counters are those of the original build
+pub fn rebuilt_line(old_line: &str, g: &FnGraph<TestFn>) -> String {
+    let num = |k: &str| -> String {
+        old_line.split(' ').find_map(|t| t.strip_prefix(k)).unwrap_or("0").to_string()
+    };
+    let sv = fn_graph::verif_hooks::sched_view(g);
+    format!(
+        "built n={} edges={} ranks={} pops={} checks={} incoming={} outgoing={} struct={} structrev={} nodes={},{}",
+        g.graph.node_count(),
+        edges_str(&graph_edges(g)),
+        csv(&g.ranks().iter().map(|r| r.0).collect::<Vec<_>>()),
+        num("pops="),
+        num("checks="),
+        csv(&sv.incoming),
+        csv(&sv.outgoing),
+        edges_str(&sv.structure),
+        edges_str(&sv.structure_rev),
+        sv.node_counts.0,
+        sv.node_counts.1
+    )
 }
 
 /// sequential API lines
